@@ -4,6 +4,7 @@ mod ast;
 mod eqord;
 mod sat;
 mod tables;
+mod translate;
 mod tree;
 
 fn main() {
@@ -18,6 +19,7 @@ fn main() {
         "tables" => tables::run(&args[2..]),
         "sat" => sat::run(&args[2..]),
         "eqord" => eqord::run(&args[2..]),
+        "translate" => translate::run(&args[2..]),
         other => {
             eprintln!("unknown engine {}", other);
             std::process::exit(2);
